@@ -205,6 +205,7 @@ func (fv *FnV) fieldOf(st *State, v Val, idx int, n ast.Node) Val {
 			key := fv.heapKey(pt.Elem(), f.Name())
 			r := Val{fmt.Sprintf("(select %s %s)", fv.heapGet(st, key), v.T), fv.smt.resolve(f.Type())}
 			fv.closedHeapFact(st, r)
+			fv.assumeRange(st, r)
 			return r
 		}
 		sn := fv.smt.sortOf(pt.Elem())
